@@ -29,6 +29,9 @@ type c13Case struct {
 	SM        bool      `json:"sm"`
 	Losses    []c13Loss `json:"losses"`
 	Permanent string    `json:"permanent"` // "", sasl-failure: the reconnection after the last loss is rejected for good
+	// StopWhileDown: Stop is called while the server refuses connections after the last loss (a reconnection loop is
+	// running); Run must return all the same
+	StopWhileDown bool `json:"stop_while_down,omitempty"`
 }
 
 func genC13(t *rapid.T) c13Case {
@@ -50,8 +53,12 @@ func genC13(t *rapid.T) c13Case {
 		}
 		c.Losses = append(c.Losses, l)
 	}
-	if rapid.IntRange(0, 4).Draw(t, "permanent") == 0 {
+	switch rapid.IntRange(0, 5).Draw(t, "tail") {
+	case 0:
 		c.Permanent = "sasl-failure"
+	case 1:
+		c.StopWhileDown = true
+		c.Losses[len(c.Losses)-1].DownMs = 150
 	}
 	return c
 }
@@ -242,6 +249,19 @@ func runC13(c c13Case) vh.Result {
 			cur.pc.Send("<stream:error><system-shutdown xmlns='urn:ietf:params:xml:ns:xmpp-streams'/></stream:error></stream:stream>")
 			cur.pc.GracefulClose(200 * time.Millisecond)
 		}
+		if last && c.StopWhileDown {
+			// the reconnection loop is running against a server that refuses connections: Stop must still end Run
+			time.Sleep(40 * time.Millisecond)
+			go sm.Stop()
+			select {
+			case <-runDone:
+			case <-time.After(vh.Margin(8 * time.Second)):
+				res.Fail("t/run-does-not-return", "%s: Stop was called while the manager was reconnecting (server down); Run did not return within the margin", desc)
+			}
+			res.NonTrivial = true
+			res.Label("stop-while-reconnecting")
+			return res
+		}
 		if l.DownMs > 0 {
 			time.Sleep(time.Duration(l.DownMs) * time.Millisecond)
 			ns, err := peer.ListenAt(addr, handler)
@@ -344,7 +364,7 @@ func runC13(c c13Case) vh.Result {
 
 var c13 = vh.Define(&vh.Def[c13Case]{
 	Property: "C13", Name: "streammanager",
-	Rule: "fault sequences of 1-3 losses on successive connections of a Client under StreamManager.Run: each loss = how the established connection ends (TCP reset, graceful TCP close, </stream:stream> from the server, a system-shutdown stream error followed by the stream end) after 0-3 stanzas in each direction x the server refusing connections for 0 or 10-150 ms (listener closed, later reopened on the same port) x 0-3 reconnection attempts that fail during negotiation (connection cut at stream open / auth / bind) x resumption confirmed or refused; optionally the last reconnection is rejected with a SASL failure (permanent); oracle on the peer's accept log and sessions: after each loss exactly one further session is established (resumed when the server confirms), exactly failing-attempts+1 connections reach the server, the new session receives and sends, PostConnect ran once per session, after the permanent error no further attempt is made within 600 ms, Stop makes Run return; non-trivial = at least one loss after establishment",
+	Rule: "fault sequences of 1-3 losses on successive connections of a Client under StreamManager.Run: each loss = how the established connection ends (TCP reset, graceful TCP close, </stream:stream> from the server, a system-shutdown stream error followed by the stream end) after 0-3 stanzas in each direction x the server refusing connections for 0 or 10-150 ms (listener closed, later reopened on the same port) x 0-3 reconnection attempts that fail during negotiation (connection cut at stream open / auth / bind) x resumption confirmed or refused; optionally the last reconnection is rejected with a SASL failure (permanent), or Stop is called while the manager is still reconnecting against a server that is down; oracle on the peer's accept log and sessions: after each loss exactly one further session is established (resumed when the server confirms), exactly failing-attempts+1 connections reach the server, the new session receives and sends, PostConnect ran once per session, after the permanent error no further attempt is made within 600 ms, Stop makes Run return; non-trivial = at least one loss after establishment",
 	Quick: 64, Thorough: 2500, Journal: true,
 	Gen: genC13, Run: runC13,
 })
